@@ -145,7 +145,7 @@ func VerifIntrospect() {
 	if inDefault {
 		xdef = "7"
 	}
-	in["inputFields"] = []interface{}{v15InputValue("x", "", "Int", xdef), v15InputValue("y", "N", "String", nil)}
+	in["inputFields"] = []interface{}{v15InputValue("x", "", "Int", xdef), v15InputValue("y", "N", "String", nil), v15InputValue("m", "", "E", "A")}
 	q := v15Type("OBJECT", "Query")
 	q["fields"] = []interface{}{
 		v15Field("o", "", "O", []interface{}{v15InputValue("in", "", "IN", nil)}, false, ""),
@@ -200,9 +200,6 @@ func VerifIntrospect() {
 		verifReach("malformed answer rejected")
 		return
 	}
-	verifKnown("C15-argument-default-dropped", defKind != 0)
-	verifKnown("C15-deprecation-dropped", deprecated && depSection)
-	verifKnown("C15-input-default-quoted", inDefault)
 	verifAssert(err == nil, "a spec-compliant answer is accepted")
 	if err != nil {
 		return
@@ -223,6 +220,10 @@ func VerifIntrospect() {
 	}
 	if deprecated && depSection {
 		verifAssert(f.Directives.ForName("deprecated") != nil, "field deprecations are reproduced")
+		if dd := f.Directives.ForName("deprecated"); dd != nil {
+			ra := dd.Arguments.ForName("reason")
+			verifAssert(ra != nil && ra.Value != nil && ra.Value.Raw == "old", "the deprecation reason is reproduced")
+		}
 		verifAssert(got.Types["E"].EnumValues.ForName("B").Directives.ForName("deprecated") != nil, "enum value deprecations are reproduced")
 	}
 	verifAssert(len(O.Interfaces) == 2 && O.Interfaces[0] == "I" && O.Interfaces[1] == "I2", "interface implementations are reproduced")
@@ -233,7 +234,11 @@ func VerifIntrospect() {
 	E := got.Types["E"]
 	verifAssert(E != nil && E.Kind == ast.Enum && len(E.EnumValues) == 2, "enum values are reproduced")
 	IN := got.Types["IN"]
-	verifAssert(IN != nil && IN.Kind == ast.InputObject && len(IN.Fields) == 2, "input fields are reproduced")
+	verifAssert(IN != nil && IN.Kind == ast.InputObject && len(IN.Fields) == 3, "input fields are reproduced")
+	if IN != nil && IN.Fields.ForName("m") != nil {
+		mdef := IN.Fields.ForName("m").DefaultValue
+		verifAssert(mdef != nil && mdef.Kind == ast.EnumValue && mdef.String() == "A", "a default of an enum-typed input field is an enum value")
+	}
 	if IN != nil && IN.Fields.ForName("x") != nil {
 		x := IN.Fields.ForName("x")
 		if inDefault {
